@@ -149,9 +149,9 @@ func (u *URL) String() string {
 	for _, typ := range fields {
 		sort.Strings(u.Params.Fields[typ])
 
-		param := "fields%5B" + typ + "%5D="
+		param := "fields%5B" + escapeQuery(typ) + "%5D="
 		for _, f := range u.Params.Fields[typ] {
-			param += f + "%2C"
+			param += escapeQuery(f) + "%2C"
 		}
 
 		param = param[:len(param)-3]
@@ -200,7 +200,7 @@ func (u *URL) String() string {
 	if len(u.Params.SortingRules) > 0 {
 		param := "sort="
 		for _, attr := range u.Params.SortingRules {
-			param += attr + "%2C"
+			param += escapeQuery(attr) + "%2C"
 		}
 
 		param = param[:len(param)-3]
